@@ -248,11 +248,16 @@ def extract_reader_model(ctx):
             pass
     # emptiness predicate of get_spans
     fs = ctx.fa(f'{RQ}.CSRReader.get_spans')
+    # the condition under which the returned edge list is the empty array (whichever way the test is written)
+    from ..facts import ite_arms
     empt = None
-    for e in events(fs, 'branch'):
-        empt = e.cond
-        break
     rets = returns(fs)
+    for r0 in rets:
+        for x in T.walk(r0.value):
+            for cond, val in ite_arms(x):
+                if val[0] == 'call' and val[1] == G('np.array') and val[2] and val[2][0][0] == 'call' \
+                        and val[2][0][1] == G('$new_list'):
+                    empt = cond
     if empt is None or not rets:
         ctx.unrec(R, 'get_spans', ctx.where(fs), reason='emptiness test / return not found')
         return None
